@@ -3,8 +3,8 @@ CONSTANTS
   NUnits = 2
   States = {"S1", "S2"}
   Counties = {"c1", "c2"}
-  Classes = {"k1"}
-  Districts = {"d1"}
+  Classes = {"k1", "k2"}
+  Districts = {"d1", "d2"}
   Policies = {"drop", "zero"}
   Offices = {FALSE, TRUE}
   LevelLists <- LL_All
